@@ -33,6 +33,19 @@ type config struct {
 	TagsBySeries bool                   `json:"tagsBySeries"`
 	NegZero   bool                      `json:"negZero"` // C01 only: include -0.0 in the float pool (known finding)
 	Big       bool                      `json:"big"` // thorough: block-limit crossing payloads
+	// Ballast > 0: every write batch carries Ballast extra rows that are not part of the spec state (the abstract rows of
+	// Engine.tla stay few, the real blocks and parts get big).  "deep": all in series 1 with a high-cardinality string
+	// tag (columns leave the dictionary encoding, blocks get hundreds of rows); "wide": one row in each of Ballast extra
+	// series (parts get thousands of blocks, several primary index blocks).  Ballast rows lie strictly inside time slot
+	// 2; they are verified by every covering query and filtered out of every other answer.
+	// Lifecycle: when set, the measure snapshot / part life-cycle events of EVERY tsTable of this process (liaison write
+	// queue, data nodes, stand-alone server) are recorded to <Lifecycle>.<pid> for validation by TSTableTrace.tla.
+	Lifecycle string `json:"lifecycle"`
+	// Shards > 1: the group has that many shards.  The spec's part layout then no longer maps to one table: flush steps
+	// flush every table, merge steps merge all file parts of every table, the layout is not compared; every answer is.
+	Shards      int    `json:"shards"`
+	Ballast     int    `json:"ballast"`
+	BallastMode string `json:"ballastMode"`
 }
 
 // world is one engine instance under replay (one fresh group per behaviour).
@@ -130,6 +143,12 @@ func main() {
 		finish()
 	}
 	ctx := context.Background()
+	if cfg.Lifecycle != "" {
+		if terr := measure.VerifStartTrace(fmt.Sprintf("%s.%d", cfg.Lifecycle, os.Getpid())); terr != nil {
+			res.Inconclusive = append(res.Inconclusive, "lifecycle trace: "+terr.Error())
+			finish()
+		}
+	}
 	tag := fmt.Sprintf("p%d", os.Getpid())
 	for n, b := range bs {
 		vlib.Progress(b.ID)
@@ -146,6 +165,9 @@ func main() {
 		m.replay(ctx, b)
 		m.teardown(ctx)
 	}
-	_ = time.Now
+	if cfg.Lifecycle != "" {
+		time.Sleep(500 * time.Millisecond) // let the maintenance loops settle: their publications belong to the trace
+		res.Stats["lifecycle_events"] = measure.VerifStopTrace()
+	}
 	finish()
 }
